@@ -1,8 +1,9 @@
 (* Lemmas about model/M_CallCache.v: cache operations, the world invariant, and the transparency argument. *)
-From Coq Require Import List NArith Bool Lia Arith.
+From Coq Require Import List NArith ZArith Bool Lia Arith ZifyBool.
 From VGI Require Import Corr M_CallCache.
 Import ListNotations.
 Open Scope N_scope.
+Ltac Zify.zify_post_hook ::= Z.div_mod_to_equations.
 
 (* ---- boolean equalities ---------------------------------------------------------------------------------- *)
 Lemma lN_eqb_eq : forall a b, lN_eqb a b = true <-> a = b.
@@ -84,7 +85,7 @@ Lemma cache_get_In : forall k now c c' e, fst (cache_get k now c) = c' -> In e c
 Proof.
   intros k now c c' e Hc Hin. unfold cache_get in Hc.
   destruct (c_find k c) as [[exp r]|] eqn:F.
-  - destruct (exp <=? now); cbn [fst] in Hc; subst c'.
+  - destruct (get_expired exp now); cbn [fst] in Hc; subst c'.
     + eapply c_remove_In; exact Hin.
     + apply in_app_or in Hin. destruct Hin as [Hin|[Hin|[]]].
       * eapply c_remove_In; exact Hin.
@@ -96,7 +97,7 @@ Lemma cache_get_hit : forall k now c r, snd (cache_get k now c) = Some r -> exis
 Proof.
   intros k now c r H. unfold cache_get in H.
   destruct (c_find k c) as [[exp r']|] eqn:F.
-  - destruct (exp <=? now) eqn:E; cbn [snd] in H; [discriminate|].
+  - destruct (get_expired exp now) eqn:E; cbn [snd] in H; [discriminate|].
     inversion H. subst r'. exists exp. split; [apply c_find_In; exact F | apply N.leb_gt; exact E].
   - cbn [snd] in H. discriminate.
 Qed.
@@ -105,23 +106,38 @@ Lemma cache_get_length : forall k now c, (length (fst (cache_get k now c)) <= le
 Proof.
   intros k now c. unfold cache_get.
   destruct (c_find k c) as [[exp r]|] eqn:F.
-  - destruct (exp <=? now); cbn [fst].
+  - destruct (get_expired exp now); cbn [fst].
     + apply c_remove_length_le.
     + rewrite app_length. cbn [length]. rewrite <- (c_remove_length_found k c _ F). lia.
   - cbn [fst]. lia.
 Qed.
 
-Lemma trim_In : forall cap c e, In e (trim cap c) -> In e c.
+Lemma trim_loop_In : forall fuel cap c e, In e (trim_loop fuel cap c) -> In e c.
 Proof.
-  intros cap c e H. unfold trim in H. rewrite <- (firstn_skipn (length c - N.to_nat cap) c).
-  apply in_or_app. right. exact H.
+  intros fuel cap. induction fuel as [|f IH]; intros c e H; cbn [trim_loop] in H.
+  - exact H.
+  - destruct (over_capacity (N.of_nat (length c)) cap).
+    + apply IH in H. destruct c as [|x r]; [exact H | right; exact H].
+    + exact H.
+Qed.
+
+Lemma trim_In : forall cap c e, In e (trim cap c) -> In e c.
+Proof. intros cap c e H. unfold trim in H. eapply trim_loop_In. exact H. Qed.
+
+Lemma trim_loop_length : forall fuel cap c, (length c <= fuel)%nat -> (length (trim_loop fuel cap c) <= N.to_nat cap)%nat.
+Proof.
+  intros fuel cap. induction fuel as [|f IH]; intros c H; cbn [trim_loop].
+  - destruct c; cbn [length] in *; lia.
+  - destruct (over_capacity (N.of_nat (length c)) cap) eqn:E.
+    + apply IH. destruct c as [|x r]; cbn [tl length] in *; lia.
+    + unfold over_capacity in E. apply N.ltb_ge in E. lia.
 Qed.
 
 Lemma trim_length : forall cap c, (length (trim cap c) <= N.to_nat cap)%nat.
-Proof. intros cap c. unfold trim. rewrite skipn_length. lia. Qed.
+Proof. intros cap c. unfold trim. apply trim_loop_length. lia. Qed.
 
 Lemma cache_put_In : forall cap ttlc k r now c e,
-  In e (cache_put cap ttlc k r now c) -> In e c \/ e = (k, (now + ttlc, r)).
+  In e (cache_put cap ttlc k r now c) -> In e c \/ e = (k, (put_expiry now ttlc, r)).
 Proof.
   intros cap ttlc k r now c e H. unfold cache_put in H. apply trim_In in H.
   apply in_app_or in H. destruct H as [H|[H|[]]].
@@ -251,7 +267,7 @@ Proof.
   destruct (ct_cid x =? cid) eqn:C; [|discriminate].
   destruct ((ct_ty x =? 0) || dec m (ct_ty x)) eqn:D; [|discriminate].
   inversion H. apply andb_true_iff in E as [E1 E2]. apply mem_ct_In in E1. apply lN_eqb_eq in E2. apply N.eqb_eq in C.
-  exists x. repeat split; try assumption. reflexivity.
+  exists x. repeat split; try assumption; try reflexivity.
 Qed.
 
 Lemma resolve_cold_inl : forall dec t now cs a m cid p e,
@@ -266,6 +282,42 @@ Proof.
     destruct (expired t now (ct_created x)); [inversion H; cbn; tauto|].
     destruct (ct_cid x =? cid); [|inversion H; cbn; tauto].
     destruct ((ct_ty x =? 0) || dec m (ct_ty x)); [discriminate | inversion H; cbn; tauto].
+Qed.
+
+Lemma init_cache_empty : forall c t0 w, cache_of (init_world c t0) w = [].
+Proof.
+  intros c t0 w. unfold cache_of, init_world. cbn [caches]. revert w.
+  induction (caps c) as [|x r IH]; intros [|w']; cbn [map nth]; try reflexivity. apply IH.
+Qed.
+
+(* ---- lifetimes (sources with dated_miss = true) ----------------------------------------------------------------- *)
+Lemma init_birth_ok : forall t now, 0 < t -> put_expiry now (cache_ttl t) < 4 * (sec now + t + 1).
+Proof.
+  intros t now Ht. unfold put_expiry, cache_ttl, cache_ttl_sec, sec.
+  assert (E : (0 <? t) = true) by (apply N.ltb_lt; exact Ht). rewrite E. lia.
+Qed.
+
+Lemma alive_unexpired : forall t now exp created, now < exp -> exp < 4 * (created + t + 1) -> expired t now created = false.
+Proof.
+  intros t now exp created H1 H2. unfold expired, sec.
+  destruct (0 <? t); [|reflexivity]. cbn [andb]. apply N.ltb_ge. lia.
+Qed.
+
+Definition exp_ok (c : cfg) (e : entry) : Prop := fst (snd e) < 4 * (rc_created (snd (snd e)) + ttl c + 1).
+Definition Dated (c : cfg) (wd : world) : Prop := forall w e, In e (cache_of wd w) -> exp_ok c e.
+
+Lemma Dated_set_cache : forall c wd w cw, Dated c wd -> (forall e, In e cw -> exp_ok c e) -> Dated c (set_cache wd w cw).
+Proof.
+  intros c wd w cw HD Hc w' e He. destruct (cache_of_set_cache wd w w' cw) as [[_ E]|E]; rewrite E in He.
+  - apply Hc. exact He.
+  - eapply HD. exact He.
+Qed.
+
+Lemma miss_birth_ok : forall c now r, dated_miss c = true -> 0 < ttl c ->
+  put_expiry (miss_birth c now r) (cache_ttl (ttl c)) < 4 * (rc_created r + ttl c + 1).
+Proof.
+  intros c now r Hd Ht. unfold miss_birth, put_expiry, cache_ttl, cache_ttl_sec. rewrite Hd.
+  assert (E : (0 <? ttl c) = true) by (apply N.ltb_lt; exact Ht). rewrite E. cbn [andb]. lia.
 Qed.
 
 Section Proofs.
@@ -295,7 +347,6 @@ Section Proofs.
       + subst cu'. cbn [cu_cid cu_aad]. destruct (H3 cu Hcu) as [ct [Hct [Ec Ea]]].
         exists ct. repeat split; try assumption. rewrite Ea. exact Haad.
       + apply H3. exact Hin.
-    - intros w e He. unfold cache_of in He. cbn [caches] in He. eapply H4. exact He.
   Qed.
 
   Lemma proceed_pub : forall wd1 wd2 a m cu r body,
@@ -347,23 +398,24 @@ Section Proofs.
     destruct (init_fn m arg) as [[[ty payload] s0]|]; [|exact HI].
     cbn [fst]. destruct HI as [H1 H2 H3 H4].
     set (ct := CT (next_cid wd) (aad_id a) (sec (clock wd)) ty payload).
+    assert (Hcid : ct_cid ct = next_cid wd) by reflexivity.
+    assert (Hca : ct_aad ct = aad_id a) by reflexivity.
     constructor; cbn [calls curs next_cid].
-    - intros x [E|Hin]; [subst x; cbn [ct_cid]; lia | specialize (H1 x Hin); lia].
+    - intros x [E|Hin]; [subst x; lia | specialize (H1 x Hin); lia].
     - intros x y [Ex|Hx] [Ey|Hy] E.
       + congruence.
-      + subst x. cbn [ct_cid] in E. specialize (H1 y Hy). lia.
-      + subst y. cbn [ct_cid] in E. specialize (H1 x Hx). lia.
+      + subst x. specialize (H1 y Hy). lia.
+      + subst y. specialize (H1 x Hx). lia.
       + apply H2; assumption.
     - intros cu [E|Hin].
-      + subst cu. exists ct. cbn [cu_cid cu_aad]. split; [left; reflexivity | split; reflexivity].
+      + subst cu. exists ct. cbn [cu_cid cu_aad]. split; [left; reflexivity | split; assumption].
       + destruct (H3 cu Hin) as [x [Hx Hrest]]. exists x. split; [right; exact Hx | exact Hrest].
     - intros w' e He. unfold cache_of in He. cbn [caches] in He.
-      destruct (nth_upd (caches wd) w w'
-                  (cache_put (cap_of c w) (cache_ttl (ttl c)) (next_cid wd, cache_id a) (resolved_of ct) (clock wd) (cache_of wd w)) [])
-        as [[_ E]|E]; rewrite E in He.
+      match type of He with context [upd w ?x (caches wd)] =>
+        destruct (nth_upd (caches wd) w w' x []) as [[_ E]|E]; rewrite E in He end.
       + apply cache_put_In in He as [He|He].
         * eapply entry_ok_mono; [|eapply H4; exact He]. intros x Hx. right. exact Hx.
-        * subst e. exists ct, a. cbn [fst snd]. split; [left; reflexivity|]. repeat split.
+        * subst e. exists ct, a. cbn [fst snd]. split; [left; reflexivity|]. repeat split; assumption.
       + eapply entry_ok_mono; [|eapply H4; exact He]. intros x Hx. right. exact Hx.
   Qed.
 
@@ -382,9 +434,7 @@ Section Proofs.
     - intros ct [].
     - intros ct ct' [].
     - intros cu [].
-    - intros w e He. unfold cache_of in He. cbn [caches] in He. exfalso.
-      revert w He. induction (caps c) as [|x r IH]; intros w He; destruct w; cbn in He; try contradiction.
-      eapply IH. exact He.
+    - intros w e He. change (In e (cache_of (init_world c t0) w)) in He. rewrite init_cache_empty in He. destruct He.
   Qed.
 
   Lemma run_from_Inv : forall c h wd, Inv wd -> Inv (fst (run_from c wd h)).
@@ -453,10 +503,7 @@ Section Proofs.
 
   Lemma size_le_cap : forall c t0 h w, (length (cache_of (fst (run c t0 h)) w) <= N.to_nat (cap_of c w))%nat.
   Proof.
-    intros c t0 h. apply run_from_Sized. intros w. unfold init_world, cache_of. cbn [caches].
-    assert (E : nth w (map (fun _ : N => ([] : cache)) (caps c)) [] = []).
-    { generalize w. induction (caps c) as [|x r IH]; intros [|w']; cbn; try reflexivity. apply IH. }
-    rewrite E. cbn. lia.
+    intros c t0 h. apply run_from_Sized. intros w. rewrite init_cache_empty. cbn [length]. lia.
   Qed.
 
   (* ---- cache_sound and hit => same identity ------------------------------------------------------------------- *)
@@ -510,8 +557,7 @@ Section Proofs.
     - destruct (hit_resolved wd w a cu cw r HI Hcu Haad G) as [ct [H1 [H2 [H3 H4]]]].
       apply resolve_cold_inr in RC as [ct' [_ [H1' [H3' [H2' [H4' _]]]]]].
       assert (ct = ct') by (apply (inv_uniq wd HI); [assumption | assumption | congruence]). subst ct'.
-      assert (r = r0) by congruence. subst r0.
-      eexists. split; [apply pub_eq_set_cache | reflexivity].
+      subst. eexists. split; [apply pub_eq_set_cache | reflexivity].
     - rewrite RC. eexists. split; [apply pub_eq_set_cache | reflexivity].
   Qed.
 
@@ -670,5 +716,162 @@ Section Proofs.
     assert (HI' : Inv (set_cache wd w [])) by (apply Inv_set_cache; [exact HI | intros e []]).
     assert (HP : pub_eq wd (set_cache wd w [])) by (apply pub_eq_sym; apply pub_eq_set_cache).
     apply (step_divergence c c wd (set_cache wd w []) r eq_refl HI HI' HP).
+  Qed.
+  (* ---- sources whose miss path dates the entry from the call token (dated_miss = true) ---------------------------- *)
+  Notation genuine := (genuine declares).
+  Notation genuine_from := (genuine_from declares init_fn turn).
+  Notation all_genuine := (all_genuine declares init_fn turn).
+
+  Lemma proceed_Dated : forall c wd a m cu r body, Dated c wd -> Dated c (fst (proceed wd a m cu r body)).
+  Proof.
+    intros c wd a m cu r body HD. unfold M_CallCache.proceed.
+    destruct (turn m (rc_ty r) (rc_payload r) (cu_state cu) body) as [out [s'|]]; cbn [fst]; exact HD.
+  Qed.
+
+  Lemma step_Dated : forall c wd r, dated_miss c = true -> 0 < ttl c -> Dated c wd -> Dated c (fst (step c wd r)).
+  Proof.
+    intros c wd r Hd Ht HD. destruct r as [w a m arg|w a m cur call body|dt|w]; cbn [M_CallCache.step].
+    - unfold M_CallCache.step_init. destruct (init_fn m arg) as [[[ty payload] s0]|]; [|exact HD].
+      cbn [fst]. intros w' e He. unfold cache_of in He. cbn [caches] in He.
+      match type of He with context [upd w ?x (caches wd)] =>
+        destruct (nth_upd (caches wd) w w' x []) as [[_ E]|E]; rewrite E in He end.
+      + apply cache_put_In in He as [He|He]; [eapply HD; exact He|].
+        subst e. unfold exp_ok. cbn [fst snd resolved_of rc_created ct_created]. apply init_birth_ok. exact Ht.
+      + eapply HD. exact He.
+    - unfold M_CallCache.step_cont.
+      destruct (open_cursor (ttl c) (clock wd) (curs wd) a cur) as [e|cu]; [exact HD|].
+      destruct (cache_get (cu_cid cu, cache_id a) (clock wd) (cache_of wd w)) as [cw hit] eqn:G.
+      assert (Hcw : forall e, In e cw -> exp_ok c e).
+      { intros e He. eapply (HD w). eapply cache_get_In; [|exact He]. rewrite G. reflexivity. }
+      destruct hit as [r|].
+      + apply proceed_Dated. apply Dated_set_cache; assumption.
+      + destruct (resolve_cold declares (ttl c) (clock wd) (calls wd) a m (cu_cid cu) call) as [e|r].
+        * cbn [fst]. apply Dated_set_cache; assumption.
+        * apply proceed_Dated. apply Dated_set_cache; [exact HD|].
+          intros e He. apply cache_put_In in He as [He|He]; [apply Hcw; exact He|].
+          subst e. unfold exp_ok. cbn [fst snd]. apply miss_birth_ok; assumption.
+    - cbn [fst]. exact HD.
+    - cbn [fst]. apply Dated_set_cache; [exact HD | intros e []].
+  Qed.
+
+  Lemma init_world_Dated : forall c t0, Dated c (init_world c t0).
+  Proof. intros c t0 w e He. rewrite init_cache_empty in He. destruct He. Qed.
+
+  Lemma run_from_Dated : forall c h wd, dated_miss c = true -> 0 < ttl c -> Dated c wd -> Dated c (fst (run_from c wd h)).
+  Proof.
+    intros c h. induction h as [|r rest IH]; intros wd Hd Ht HD; cbn [M_CallCache.run_from].
+    - exact HD.
+    - destruct (step c wd r) as [wd1 o] eqn:S.
+      destruct (run_from c wd1 rest) as [wd2 os] eqn:R. cbn [fst].
+      specialize (IH wd1 Hd Ht). rewrite R in IH. cbn [fst] in IH. apply IH.
+      pose proof (step_Dated c wd r Hd Ht HD) as H. rewrite S in H. exact H.
+  Qed.
+
+  (* a genuine call token that the miss path refuses is refused for its age -- and then no live entry exists *)
+  Lemma dated_genuine_rejects : forall c wd w a m cur call body cu e,
+    Inv wd -> Dated c wd ->
+    open_cursor (ttl c) (clock wd) (curs wd) a cur = inr cu ->
+    resolve_cold declares (ttl c) (clock wd) (calls wd) a m (cu_cid cu) call = inl e ->
+    genuine c wd (RCont w a m cur call body) = true ->
+    exists cw, step_cont c wd w a m cur call body = (set_cache wd w cw, ORejected e).
+  Proof.
+    intros c wd w a m cur call body cu e HI HD OC RC HG.
+    cbn [M_CallCache.genuine] in HG. rewrite OC in HG.
+    destruct call as [| | |t]; try discriminate.
+    apply andb_true_iff in HG as [HG Hty]. apply andb_true_iff in HG as [HG Hcid]. apply andb_true_iff in HG as [Hmem Haad'].
+    cbn [resolve_cold] in RC. rewrite Hmem, Haad', Hcid, Hty in RC. cbn [andb] in RC.
+    destruct (expired (ttl c) (clock wd) (ct_created t)) eqn:X; [|discriminate].
+    apply mem_ct_In in Hmem. apply lN_eqb_eq in Haad'. apply N.eqb_eq in Hcid.
+    unfold M_CallCache.step_cont. rewrite OC.
+    pose proof (open_cursor_inr _ _ _ _ _ _ OC) as [Hcu [Haad _]].
+    destruct (cache_get (cu_cid cu, cache_id a) (clock wd) (cache_of wd w)) as [cw hit] eqn:G.
+    destruct hit as [r|].
+    - exfalso.
+      destruct (hit_resolved wd w a cu cw r HI Hcu Haad G) as [ct [H1 [H2 [H3 H4]]]].
+      assert (ct = t) by (apply (inv_uniq wd HI); [assumption | assumption | congruence]). subst ct.
+      assert (Hs : snd (cache_get (cu_cid cu, cache_id a) (clock wd) (cache_of wd w)) = Some r) by (rewrite G; reflexivity).
+      apply cache_get_hit in Hs as [exp [Hin Hlt]].
+      pose proof (HD w _ Hin) as Hok. unfold exp_ok in Hok. cbn [fst snd] in Hok. subst r. cbn [resolved_of rc_created] in Hok.
+      rewrite (alive_unexpired (ttl c) (clock wd) exp (ct_created t) Hlt Hok) in X. discriminate.
+    - exists cw. cbn [resolve_cold]. rewrite (proj2 (mem_ct_In t (calls wd)) Hmem).
+      rewrite (proj2 (lN_eqb_eq _ _) Haad'). cbn [andb]. rewrite X. inversion RC. reflexivity.
+  Qed.
+
+  Lemma genuine_pub : forall c1 c2 wd1 wd2 r, ttl c1 = ttl c2 -> pub_eq wd1 wd2 -> genuine c1 wd1 r = genuine c2 wd2 r.
+  Proof.
+    intros c1 c2 wd1 wd2 r Et [E1 [E2 [E3 E4]]]. destruct r; cbn [M_CallCache.genuine]; try reflexivity.
+    rewrite Et, E1, E3, E4. reflexivity.
+  Qed.
+
+  Lemma step_agree_dated : forall c1 c2 wd1 wd2 r,
+    ttl c1 = ttl c2 -> Inv wd1 -> Inv wd2 -> Dated c1 wd1 -> Dated c2 wd2 -> pub_eq wd1 wd2 -> genuine c1 wd1 r = true ->
+    snd (step c1 wd1 r) = snd (step c2 wd2 r) /\ pub_eq (fst (step c1 wd1 r)) (fst (step c2 wd2 r)).
+  Proof.
+    intros c1 c2 wd1 wd2 r Et HI1 HI2 HD1 HD2 HP HG.
+    destruct (excluded c1 wd1 r) eqn:HX.
+    2:{ apply step_agree; assumption. }
+    pose proof HP as [E1 [E2 [E3 E4]]].
+    pose proof HG as HG2. rewrite (genuine_pub c1 c2 wd1 wd2 r Et HP) in HG2.
+    destruct r as [w a m arg|w a m cur call body|dt|w]; cbn [M_CallCache.excluded] in HX; try discriminate.
+    cbn [M_CallCache.step].
+    destruct (open_cursor (ttl c1) (clock wd1) (curs wd1) a cur) as [e|cu] eqn:OC; [discriminate|].
+    destruct (resolve_cold declares (ttl c1) (clock wd1) (calls wd1) a m (cu_cid cu) call) as [e|r0] eqn:RC; [|discriminate].
+    destruct (dated_genuine_rejects c1 wd1 w a m cur call body cu e HI1 HD1 OC RC HG) as [cw1 S1].
+    rewrite Et, E1, E4 in OC. rewrite Et, E1, E3 in RC.
+    destruct (dated_genuine_rejects c2 wd2 w a m cur call body cu e HI2 HD2 OC RC HG2) as [cw2 S2].
+    rewrite S1, S2. cbn [fst snd]. split; [reflexivity|].
+    eapply pub_eq_trans; [apply pub_eq_set_cache|]. eapply pub_eq_trans; [exact HP|]. apply pub_eq_sym. apply pub_eq_set_cache.
+  Qed.
+
+  Lemma run_from_agree_dated : forall c1 c2 h wd1 wd2,
+    ttl c1 = ttl c2 -> dated_miss c1 = true -> dated_miss c2 = true -> 0 < ttl c1 ->
+    Inv wd1 -> Inv wd2 -> Dated c1 wd1 -> Dated c2 wd2 -> pub_eq wd1 wd2 -> genuine_from c1 wd1 h = true ->
+    snd (run_from c1 wd1 h) = snd (run_from c2 wd2 h).
+  Proof.
+    intros c1 c2 h. induction h as [|r rest IH]; intros wd1 wd2 Et Hd1 Hd2 Ht HI1 HI2 HD1 HD2 HP HA; cbn [M_CallCache.run_from].
+    - reflexivity.
+    - cbn [M_CallCache.genuine_from] in HA. apply andb_true_iff in HA as [HG HA].
+      destruct (step_agree_dated c1 c2 wd1 wd2 r Et HI1 HI2 HD1 HD2 HP HG) as [Eo EP].
+      pose proof (step_Inv c1 wd1 r HI1) as I1. pose proof (step_Inv c2 wd2 r HI2) as I2.
+      assert (Ht2 : 0 < ttl c2) by (rewrite <- Et; exact Ht).
+      pose proof (step_Dated c1 wd1 r Hd1 Ht HD1) as D1. pose proof (step_Dated c2 wd2 r Hd2 Ht2 HD2) as D2.
+      destruct (step c1 wd1 r) as [wd1' o1]. destruct (step c2 wd2 r) as [wd2' o2]. cbn [fst snd] in *.
+      specialize (IH wd1' wd2' Et Hd1 Hd2 Ht I1 I2 D1 D2 EP HA).
+      destruct (run_from c1 wd1' rest) as [x1 os1]. destruct (run_from c2 wd2' rest) as [x2 os2]. cbn [snd] in *.
+      congruence.
+  Qed.
+
+  (* ttl = 0: tokens never expire, a genuine token is never excluded *)
+  Lemma genuine_not_excluded_ttl0 : forall c wd r, ttl c = 0 -> genuine c wd r = true -> excluded c wd r = false.
+  Proof.
+    intros c wd r Ht HG. destruct r as [w a m arg|w a m cur call body|dt|w]; cbn [M_CallCache.excluded]; try reflexivity.
+    cbn [M_CallCache.genuine] in HG.
+    destruct (open_cursor (ttl c) (clock wd) (curs wd) a cur) as [e|cu]; [reflexivity|].
+    destruct call as [| | |t]; try discriminate.
+    apply andb_true_iff in HG as [HG Hty]. apply andb_true_iff in HG as [HG Hcid]. apply andb_true_iff in HG as [Hmem Haad'].
+    cbn [resolve_cold]. rewrite Hmem, Haad', Hcid, Hty. cbn [andb]. unfold expired. rewrite Ht. reflexivity.
+  Qed.
+
+  Lemma genuine_from_admissible_ttl0 : forall c h wd, ttl c = 0 -> genuine_from c wd h = true -> admissible_from c wd h = true.
+  Proof.
+    intros c h. induction h as [|r rest IH]; intros wd Ht HG; cbn [M_CallCache.genuine_from M_CallCache.admissible_from] in *.
+    - reflexivity.
+    - apply andb_true_iff in HG as [H1 H2]. apply andb_true_iff. split.
+      + apply negb_true_iff. apply genuine_not_excluded_ttl0; assumption.
+      + apply IH; assumption.
+  Qed.
+
+  (* the honest-client form of the statement, for sources with dated_miss = true: every continuation echoes the genuine
+     call token of its stream (whatever its age) *)
+  Lemma dated_cache_transparent : forall c1 c2 t0 h,
+    ttl c1 = ttl c2 -> dated_miss c1 = true -> dated_miss c2 = true ->
+    all_genuine c1 t0 h = true -> outcomes c1 t0 h = outcomes c2 t0 h.
+  Proof.
+    intros c1 c2 t0 h Et Hd1 Hd2 HG. unfold M_CallCache.all_genuine in HG.
+    destruct (N.eq_dec (ttl c1) 0) as [Z|NZ].
+    - apply any_two_agree; [exact Et|]. unfold M_CallCache.admissible. apply genuine_from_admissible_ttl0; assumption.
+    - unfold M_CallCache.outcomes, M_CallCache.run.
+      apply run_from_agree_dated; try assumption; try apply init_world_Inv; try apply init_world_Dated; try lia.
+      unfold init_world. repeat split.
   Qed.
 End Proofs.
